@@ -289,6 +289,23 @@ def c08(tier, seed):
     return verdict.finish()
 
 
+def replay(rp):
+    """Re-run the recorded close scenario against the current tree and re-judge its predicate (C08, or C10's racing closers)."""
+    prop = rp["property"]
+    if "scenario" not in rp:     # a violation of the gather-family batch of C08: its replay file belongs to plan_gather
+        import plan_gather
+        return plan_gather.replay(rp)
+    verdict = v.Verdict(prop, "quick", 0)
+    with v.Work("replay") as work:
+        work.copy_specs("close")
+        judge_close(work, v.build_harness(work), verdict, {}, [dict(rp["scenario"], id=1)], prop, [rp["predicate"]], "replay")
+    for feat, p in verdict.violations:
+        print("VIOLATION property=%s replay=%s" % (prop, p))
+    for kid, (what, cnt) in verdict.known_hits.items():
+        print("KNOWN-FINDING: property=%s %s" % (prop, what))
+    return 1 if verdict.violations else 0
+
+
 PLANS = {"C08": c08}
 MANIFEST = {"C08": ("model_checking", "5.C08",
                     "Close/GracefulClose injected at every position of a connection history (0..15/23 pump steps) from an API goroutine, from inside each "
